@@ -12,6 +12,8 @@ while a:
     else: a = a[1:]
 def sh(cmd, **kw): return subprocess.run(cmd, shell=True, capture_output=True, text=True, **kw)
 assert sh("git -C /repo diff --quiet").returncode == 0, "/repo is dirty"
+# seeded changes whose natural detector is another property's check (run in addition to their own)
+EXTRA = {("C19", "r2m2"): ["C20"]}
 rows = []
 for meta_path in sorted(glob.glob(f"{ROOT}/seeded/*/*/meta.json")):
     d = os.path.dirname(meta_path)
@@ -23,13 +25,17 @@ for meta_path in sorted(glob.glob(f"{ROOT}/seeded/*/*/meta.json")):
     if r.returncode != 0:
         rows.append((pid, os.path.basename(d), "PATCH DOES NOT APPLY", "")); continue
     try:
-        r = sh(f"cd {ROOT} && timeout 1800 ./check {pid} --tier {tier}")
-        out = r.stdout
-        viol = [l.strip() for l in out.splitlines() if l.strip().startswith("violation [")]
-        sigs = [re.match(r"violation \[([^\]]*)\]", v).group(1) for v in viol]
-        caught = r.returncode == 1 and any(l.startswith("VIOLATION property=" + pid) for l in out.splitlines())
-        meta["checks_run"] = [{"cmd": f"./check {pid} --tier {tier}", "exit": r.returncode, "caught": caught, "violation_signatures": sigs, "first_violation": (viol[0][:400] if viol else None)}]
-        rows.append((pid, os.path.basename(d), "caught" if caught else f"MISSED (exit {r.returncode})", "; ".join(sigs)[:150]))
+        meta["checks_run"] = []
+        any_caught = False; all_sigs = []
+        for cid in [pid] + EXTRA.get((pid, os.path.basename(d)), []):
+            r = sh(f"cd {ROOT} && timeout 1800 ./check {cid} --tier {tier}")
+            out = r.stdout
+            viol = [l.strip() for l in out.splitlines() if l.strip().startswith("violation [")]
+            sigs = [re.match(r"violation \[([^\]]*)\]", v).group(1) for v in viol]
+            caught = r.returncode == 1 and any(l.startswith("VIOLATION property=" + cid) for l in out.splitlines())
+            meta["checks_run"].append({"cmd": f"./check {cid} --tier {tier}", "exit": r.returncode, "caught": caught, "violation_signatures": sigs, "first_violation": (viol[0][:400] if viol else None)})
+            any_caught |= caught; all_sigs += [f"{cid}:{x}" if cid != pid else x for x in sigs]
+        rows.append((pid, os.path.basename(d), "caught" if any_caught else f"MISSED (exit {r.returncode})", "; ".join(all_sigs)[:150]))
     finally:
         sh("git -C /repo checkout -- .")
     json.dump(meta, open(meta_path, "w"), indent=1)
